@@ -215,6 +215,7 @@ type modEntry struct {
 	all  bool // "*"
 	obj  bool // every field of object ref
 	elem bool // every element of slice base ref
+	typ  types.Type // obj: struct type of the object; elem: element type of the slice (nil if unknown)
 }
 
 func (x *Exec) frameCheck(st *State, a *Addr, pos token.Pos) {
@@ -284,9 +285,19 @@ func (x *Exec) modEntries(fc *FuncContract, target *ssa.Function, args map[strin
 		}
 		switch {
 		case strings.HasSuffix(m, ".*"):
-			out = append(out, modEntry{obj: true, ref: base})
+			e := modEntry{obj: true, ref: base}
+			if bt != nil && isStruct(deref(bt)) {
+				e.typ = deref(bt)
+			}
+			out = append(out, e)
 		case strings.HasSuffix(m, "[*]"):
-			out = append(out, modEntry{elem: true, ref: sx("sbase", base)})
+			e := modEntry{elem: true, ref: sx("sbase", base)}
+			if bt != nil {
+				if sl, ok := bt.Underlying().(*types.Slice); ok {
+					e.typ = sl.Elem()
+				}
+			}
+			out = append(out, e)
 		default:
 			// base.field
 			fld := m[strings.LastIndex(m, ".")+1:]
@@ -297,7 +308,7 @@ func (x *Exec) modEntries(fc *FuncContract, target *ssa.Function, args map[strin
 					if s.Field(k).Name() == fld {
 						found = true
 						if isStruct(s.Field(k).Type()) {
-							out = append(out, modEntry{obj: true, ref: x.subRef(stt, k, base)})
+							out = append(out, modEntry{obj: true, ref: x.subRef(stt, k, base), typ: s.Field(k).Type()})
 						} else {
 							cn, srt, _ := x.fieldComp(stt, k)
 							x.comp(cn, srt)
@@ -316,6 +327,68 @@ func (x *Exec) modEntries(fc *FuncContract, target *ssa.Function, args map[strin
 	return out
 }
 
+// modComps: the heap components a contract's modifies clause can touch (syntactic,
+// for loop heads); all=true when that cannot be bounded.
+func (x *Exec) modComps(fc *FuncContract, target *ssa.Function) (comps []string, all bool) {
+	for i, m := range fc.Modifies {
+		if m == "*" {
+			return nil, true
+		}
+		if m == "nothing" {
+			continue
+		}
+		c := fc.modClause(i)
+		if c == nil || c.FnSym == "" {
+			return nil, true
+		}
+		cf := x.clauseFn(c, pkgPathOf(target))
+		if cf == nil {
+			return nil, true
+		}
+		bt := cf.Signature.Results().At(0).Type()
+		switch {
+		case strings.HasSuffix(m, ".*"):
+			if !isStruct(deref(bt)) {
+				return nil, true
+			}
+			comps = append(comps, x.allFieldComps(deref(bt))...)
+		case strings.HasSuffix(m, "[*]"):
+			sl, ok := bt.Underlying().(*types.Slice)
+			if !ok || isStruct(sl.Elem()) {
+				return nil, true
+			}
+			cn, srt := x.elemComp(sl.Elem())
+			x.comp(cn, srt)
+			comps = append(comps, cn)
+		default:
+			fld := m[strings.LastIndex(m, ".")+1:]
+			stt := deref(bt)
+			s, ok := stt.Underlying().(*types.Struct)
+			if !ok {
+				return nil, true
+			}
+			found := false
+			for k := 0; k < s.NumFields(); k++ {
+				if s.Field(k).Name() != fld {
+					continue
+				}
+				found = true
+				if isStruct(s.Field(k).Type()) {
+					comps = append(comps, x.allFieldComps(s.Field(k).Type())...)
+				} else {
+					cn, srt, _ := x.fieldComp(stt, k)
+					x.comp(cn, srt)
+					comps = append(comps, cn)
+				}
+			}
+			if !found {
+				return nil, true
+			}
+		}
+	}
+	return comps, false
+}
+
 func (fc *FuncContract) modClause(i int) *Clause {
 	if fc.modClauses == nil {
 		return nil
@@ -330,9 +403,19 @@ func (x *Exec) havocMod(st *State, ents []modEntry) {
 		case e.all:
 			x.havocHeapAll(st)
 			return
+		case e.obj && e.typ != nil && isStruct(e.typ):
+			// every field of that object may change: the field components of its struct type
+			// (nested structs included) are havocked as a whole — an over-approximation of
+			// "at this object only", still far from the whole heap
+			for _, cn := range x.allFieldComps(e.typ) {
+				st.heap[cn] = x.havocConst("mod_"+cn, x.comps[cn])
+			}
+		case e.elem && e.typ != nil && !isStruct(e.typ):
+			cn, srt := x.elemComp(e.typ)
+			x.comp(cn, srt)
+			st.heap[cn] = x.havocConst("mod_"+cn, srt)
 		case e.obj, e.elem:
-			// conservative: every component may change at that object; model as havoc of all
-			// struct-field components restricted to this ref is not expressible without the type; havoc all
+			// type unknown: every component may change
 			x.havocHeapAll(st)
 			return
 		default:
@@ -394,6 +477,12 @@ func (x *Exec) callWith(f *frame, in ssa.Instruction, c *ssa.CallCommon, args []
 		x.unknownEffect(st, in.Pos())
 		return x.resultVal(st, c.Signature(), "inv")
 	}
+	if !deferred {
+		// seq(yield): a range-over-func loop whose body is under contract
+		if v, ok := x.rangeFuncCall(f, in, c, args); ok {
+			return v
+		}
+	}
 	callee := c.StaticCallee()
 	var fnVal Val
 	if deferred {
@@ -424,12 +513,15 @@ func (x *Exec) callWith(f *frame, in ssa.Instruction, c *ssa.CallCommon, args []
 		if v, ok := x.externFuncValue(f, in, c, args); ok {
 			return v
 		}
+		if v, ok := x.rangeFuncCall(f, in, c, args); ok {
+			return v
+		}
 		x.abstract("call through function value (havoc) at " + x.shortPos(in.Pos()))
 		x.unknownEffect(st, in.Pos())
 		return x.resultVal(st, c.Signature(), "dyn")
 	}
 	key := funcKey(callee)
-	site := x.siteAssertions(st, in, callee.Name(), args)
+	site := x.siteAssertions(st, in, baseName(callee), args)
 	if fc := x.L.FuncCon[key]; fc != nil && !fc.Inline {
 		return x.callContract(f, in, callee, fc, args, site)
 	}
